@@ -675,8 +675,11 @@ class FatTable(abc.MutableSequence):
         with self._lock.read:
             cluster = start
             while self.min_valid <= cluster <= self.max_valid:
+                # Read the link before yielding: callers (unlink, rmdir,
+                # rename) free each cluster as it is yielded
+                next_cluster = self[cluster]
                 yield cluster
-                cluster = self[cluster]
+                cluster = next_cluster
 
     def free(self):
         """
